@@ -265,15 +265,55 @@ func staticCallee(in ssa.Instruction) *ssa.Function {
 
 // callsTo lists the call instructions in fn (not closures) whose static callee is target.
 func callsTo(fn *ssa.Function, target *ssa.Function) []ssa.Instruction {
+	return callsToRec(fn, target, map[*ssa.Function]bool{})
+}
+
+// callsToRec: the calls of target in fn - and in what the helper normalisation would have made part of fn had it
+// been able to: the bodies of helpers unknown to the inventory whose calls were kept (a callee that defers), and of
+// function literals that are called on the spot.
+func callsToRec(fn *ssa.Function, target *ssa.Function, seen map[*ssa.Function]bool) []ssa.Instruction {
 	var out []ssa.Instruction
+	if fn == nil || seen[fn] || target == nil {
+		return nil
+	}
+	seen[fn] = true
 	allInstrs(fn, func(in ssa.Instruction) {
 		if _, isDefer := in.(*ssa.Defer); isDefer {
 			return
 		}
-		if staticCallee(in) == target && target != nil {
+		if _, isGo := in.(*ssa.Go); isGo {
+			if staticCallee(in) == target {
+				out = append(out, in)
+			}
+			return
+		}
+		cal := staticCallee(in)
+		if cal == target {
 			out = append(out, in)
+			return
+		}
+		if cal != nil && cal != fn && isNewFunc(cal) {
+			out = append(out, callsToRec(cal, target, seen)...)
+			return
+		}
+		if c, ok := in.(*ssa.Call); ok {
+			if mc, ok := c.Call.Value.(*ssa.MakeClosure); ok {
+				if lit, ok := mc.Fn.(*ssa.Function); ok {
+					out = append(out, callsToRec(lit, target, seen)...)
+				}
+			}
 		}
 	})
+	return out
+}
+
+// callsToDeep: callsTo over fn and the function literals written in it (a literal is part of its function; the
+// helper normalisation leaves an inlined body as a literal when it defers).
+func callsToDeep(fn *ssa.Function, target *ssa.Function) []ssa.Instruction {
+	out := callsTo(fn, target)
+	for _, an := range fn.AnonFuncs {
+		out = append(out, callsToDeep(an, target)...)
+	}
 	return out
 }
 
